@@ -51,6 +51,9 @@ def run(tier):
     nf, cf = fc.judge(chk, wd, "c03", "C03", ("wasm32", "ilp64", "lp16"))
     total += nf
     combos |= cf
+    # the same refusals in the library's DEFAULT failure configuration (no exceptions, no custom handler): the process ends
+    import abortcommon
+    abortcommon.judge(chk, wd, "C03")
     chk.count(evaluations=total, distinct=len(combos), traces=len(jobs))
     chk.cov["exhaustive"] = True
     chk.cov["exhaustive_scope"] = "all representations < 2^16 (2^20 thorough) in the memory-cell position and a quarter of them " \
